@@ -20,7 +20,8 @@ REQUIRED = ["prep_checked:dominion", "prep_checked:hart", "prep_rejections_check
             "lookup_checked:hart", "lookups_with_empty_batches", "lookups_with_phantom_batch", "cvrs_checked:dominion",
             "cvrs_checked:hart", "sample_numbers_mapped", "phantom_cards_sampled",
             "manifest_row_labels_not_0_to_n", "manifest_row_labels_not_0_to_n_and_no_phantom_batch",
-            "second_lookup_in_same_manifest", "cvr_identifiers_with_zero_padded_card_numbers"]
+            "second_lookup_in_same_manifest", "cvr_identifiers_with_zero_padded_card_numbers",
+            "sampled_phantom_cvrs_with_another_identifier_prefix"]
 ASSUMPTIONS = ["unique (tabulator, batch) labels per manifest", "Dominion lookup is 1-based, Hart lookup 0-based, as each "
                "vendor module documents and its test pins", "phantom CVR ids use the documented prefix 'phantom-1-'"]
 N_CASES = {"quick": 8000, "thorough": 64000}
@@ -94,6 +95,7 @@ def run_shard(spec, rec):
         case["n_cvrs"] = rng.randint(0, sum(case["sizes"]))
         case["index_mode"] = rng.choice(("default", "default", "offset", "permuted"))
         case["padded_ids"] = rng.random() < 0.3
+        case["phantom_prefix"] = rng.choice(("phantom-1-", "phantom-1-", "ph-1-", "Phantom-2-"))
         run_case(case, rec)
 
 
@@ -241,7 +243,10 @@ def run_case(case, rec):
     cvr_list = []
     for (tab, batch, pos, ph) in enum:
         if ph:
-            cvr_list.append(CVR(id=f"phantom-1-{pos}", votes={}, phantom=True))
+            # what makes a record a phantom is its flag; make_phantoms lets the caller choose the identifier prefix
+            # (Dominion keeps the identifier as it is; Hart rewrites it with the documented prefix, so it keeps that one)
+            pre = case.get("phantom_prefix", "phantom-1-") if vendor == "dominion" else "phantom-1-"
+            cvr_list.append(CVR(id=f"{pre}{pos}", votes={}, phantom=True))
         elif vendor == "dominion":
             c = CVR(id=(f"{tab}-{batch}-{pos:03d}" if case.get("padded_ids") else f"{tab}-{batch}-{pos}"), votes={"x": {"a": 1}})
             # card_in_batch is a separate attribute (set_card_in_batch_lex makes it the 0-based lexicographic position):
@@ -260,6 +265,8 @@ def run_case(case, rec):
     rec.count(f"cvrs_checked:{vendor}")
     if case.get("padded_ids"):
         rec.count("cvr_identifiers_with_zero_padded_card_numbers")
+    if vendor == "dominion" and case.get("phantom_prefix", "phantom-1-") != "phantom-1-" and any(cvr_list[i].phantom for i in picks):
+        rec.count("sampled_phantom_cvrs_with_another_identifier_prefix")
     if [c.id for c in cvr_sample] != [cvr_list[i].id for i in picks] or any(a is not cvr_list[i] for a, i in zip(cvr_sample, picks)):
         rec.violation("c17.cvrs", f"{vendor}:cvrs_not_in_selection_order", {"got": [c.id for c in cvr_sample],
                                                                              "want": [cvr_list[i].id for i in picks]})
